@@ -42,12 +42,15 @@ class BufferingDestination(object):
         # lost nor delivered ahead of the buffered ones:
         self._lock = RLock()
         self._forward = None
+        self._handing_over = False
 
     def __call__(self, message):
         with self._lock:
             if self._forward is None:
                 self.messages.append(message)
-                while len(self.messages) > 1000:
+                # Messages logged by the hand-over itself (e.g. reports about
+                # destinations failing on buffered messages) are all kept.
+                while len(self.messages) > 1000 and not self._handing_over:
                     self.messages.pop(0)
                 return
         # Real destinations have been added while the caller was still
@@ -156,12 +159,14 @@ class Destinations(object):
             with buffer._lock:
                 # Re-deliver buffered messages (and whatever gets logged
                 # while doing so), then switch over in a single step:
+                buffer._handing_over = True
                 while buffer.messages:
                     buffered_messages, buffer.messages = buffer.messages, []
                     for message in buffered_messages:
                         self._deliver(destinations, message)
                 buffer._forward = self.send
-                self._destinations = destinations
+                # Keep destinations added while the buffer was re-delivered:
+                self._destinations = destinations + self._destinations[1:]
         else:
             self._destinations.extend(destinations)
 
